@@ -154,6 +154,47 @@ pub fn run_builder(ops: &[BOp]) -> String {
     s
 }
 
+/// change exactly one component of a type (docs of the type / of a field / of a variant, a name, an index, a type name)
+fn perturb(r: &mut Rng, mut t: Type<PortableForm>) -> Type<PortableForm> {
+    use scale_info::TypeDef;
+    let extra = gen::string(r);
+    match (&mut t.type_def, r.below(6)) {
+        (TypeDef::Variant(v), 0..=2) if !v.variants.is_empty() => {
+            let i = r.below(v.variants.len() as u64) as usize;
+            match r.below(4) {
+                0 => v.variants[i].docs.push(extra),
+                1 => v.variants[i].name.push('x'),
+                2 => v.variants[i].index = v.variants[i].index.wrapping_add(1),
+                _ => {
+                    if let Some(f) = v.variants[i].fields.first_mut() {
+                        f.docs.push(extra)
+                    } else {
+                        v.variants[i].docs.push(extra)
+                    }
+                }
+            }
+        }
+        (TypeDef::Composite(c), 0..=2) if !c.fields.is_empty() => {
+            let i = r.below(c.fields.len() as u64) as usize;
+            match r.below(3) {
+                0 => c.fields[i].docs.push(extra),
+                1 => c.fields[i].type_name = Some(extra),
+                _ => c.fields[i].name = Some(extra),
+            }
+        }
+        (_, 3) => t.docs.push(extra),
+        (_, 4) => t.path.segments.push(extra),
+        _ => {
+            if let Some(p) = t.type_params.first_mut() {
+                p.name.push('y')
+            } else {
+                t.docs.push(extra)
+            }
+        }
+    }
+    t
+}
+
 pub fn builder(r: &mut Rng, n: u64, thorough: bool, out: &mut Out) {
     for case in 0..n {
         let len = r.below(if thorough { 60 } else { 25 }) as usize;
@@ -165,7 +206,11 @@ pub fn builder(r: &mut Rng, n: u64, thorough: bool, out: &mut Out) {
         for _ in 0..len {
             match r.below(10) {
                 0..=5 => {
-                    let t = if !pool.is_empty() && r.chance(2, 5) {
+                    let t = if !pool.is_empty() && r.chance(1, 5) {
+                        // a near-duplicate: equal to a registered value except for ONE component
+                        let base = r.pick(&pool).clone();
+                        perturb(r, base)
+                    } else if !pool.is_empty() && r.chance(2, 5) {
                         r.pick(&pool).clone()
                     } else {
                         // references: below / at (self reference through next_type_id) / above
